@@ -6,6 +6,7 @@ package main
 import (
 	"fmt"
 	"go/ast"
+	"go/constant"
 	"go/token"
 	"go/types"
 	"strings"
@@ -447,4 +448,219 @@ func c10PrefixStaysReadable(p *Prog, r *Report, rule string) {
 	if !found {
 		r.Undecided(rule, kContentStore+"#prefix-file-kept-for-the-retry", p.pos(cs.Decl), "the construction of the retry request was not found")
 	}
+}
+
+func init() {
+	old := registry["C18"]
+	registry["C18"] = func(p *Prog, r *Report) {
+		old(p, r)
+		r.Rule("C18.e", "the snapshot lookup as a whole: LastBefore, with the search and every short cut in front of it, evaluated on sorted mirrors of one to three versions for every position of the probe relative to them (below, equal to, between, above), answers the newest version strictly before the probe, the zero version when there is none")
+		c18LastBeforeAsAWhole(p, r, "C18.e")
+	}
+}
+
+// c18LastBeforeAsAWhole (seeded C18-B, round 6: a short cut for "the newest version is not newer than the point",
+// right for every probe but the one that equals the newest version).
+func c18LastBeforeAsAWhole(p *Prog, r *Report, rule string) {
+	lb := p.Func(kLastBefore)
+	if lb == nil {
+		r.Undecided(rule, kLastBefore, "", "LastBefore not found")
+		return
+	}
+	info := lb.Pkg.TypesInfo
+	var recv types.Object
+	if lb.Decl.Recv != nil && len(lb.Decl.Recv.List) == 1 && len(lb.Decl.Recv.List[0].Names) == 1 {
+		recv = info.Defs[lb.Decl.Recv.List[0].Names[0]]
+	}
+	var probe types.Object
+	for _, fld := range lb.Decl.Type.Params.List {
+		for _, nm := range fld.Names {
+			probe = info.Defs[nm]
+		}
+	}
+	cons := kLastBefore + "#agrees-with-the-linear-specification"
+	if recv == nil || probe == nil {
+		r.Undecided(rule, cons, p.pos(lb.Decl), "receiver / probe parameter not found")
+		return
+	}
+	seqs := []int64{2, 4, 6}
+	cases, bad := 0, ""
+	for n := 1; n <= 3; n++ {
+		for pr := int64(1); pr <= 7; pr++ {
+			var elems []*Val
+			for i := 0; i < n; i++ {
+				elems = append(elems, &Val{Ptr: &Val{Fields: map[string]*Val{"v": {Fields: map[string]*Val{"Seq": intVal(seqs[i]), "Key": strVal("k")}, Complete: true}}, Complete: true}})
+			}
+			want := int64(0)
+			for i := 0; i < n; i++ {
+				if seqs[i] < pr {
+					want = seqs[i]
+				}
+			}
+			fv := &Val{Ptr: &Val{Fields: map[string]*Val{fileFields.Arr: {IsSlice: true, Elems: elems}}}}
+			env := &Env{P: p, Pkg: lb.Pkg, Vars: map[types.Object]*Val{recv: fv, probe: intVal(pr)}}
+			env.Hook = func(e *Env, x ast.Expr) (*Val, bool) {
+				// ptr.Val(x): the pointee, the zero value for nil
+				if c, ok := x.(*ast.CallExpr); ok && len(c.Args) == 1 && p.callIs(e.Pkg, c, "internal/utils/ptr.Val") {
+					v := e.eval(c.Args[0])
+					if v == nil || v.Nil {
+						return &Val{Fields: map[string]*Val{}, Complete: true}, true
+					}
+					if v.Ptr != nil {
+						return v.Ptr, true
+					}
+					return v, true
+				}
+				return nil, false
+			}
+			got, err := func() (v *Val, err error) {
+				defer func() {
+					if rec := recover(); rec != nil {
+						if ee, ok := rec.(evalErr); ok {
+							err = ee
+							return
+						}
+						panic(rec)
+					}
+				}()
+				ret, done := env.execBlock(lb.Decl.Body.List)
+				if !done || len(ret) != 1 {
+					return nil, evalErr{"no single result"}
+				}
+				return ret[0], nil
+			}()
+			if err != nil {
+				r.Undecided(rule, cons, p.pos(lb.Decl), fmt.Sprintf("LastBefore is outside the evaluator's fragment (%v)", err))
+				return
+			}
+			cases++
+			gotSeq := int64(0)
+			for got != nil && got.Ptr != nil {
+				got = got.Ptr
+			}
+			if got != nil && got.Fields != nil {
+				if sv := got.Fields["Seq"]; sv != nil && sv.C != nil {
+					gotSeq, _ = constant.Int64Val(sv.C)
+				}
+			}
+			if gotSeq != want && bad == "" {
+				bad = fmt.Sprintf("versions %v, snapshot point %d: LastBefore answers version %d, the newest version strictly before the point is %d (0 = none)", seqs[:n], pr, gotSeq, want)
+			}
+		}
+	}
+	r.Check(bad == "", rule, cons, p.pos(lb.Decl), fmt.Sprintf("%d mirror / probe arrangements agree with the linear specification", cases),
+		"the snapshot lookup answers wrongly: "+bad+": a snapshot reader sees a version that was not committed before its snapshot point (or misses one that was)")
+}
+
+func init() {
+	wrap := func(id string, extra func(p *Prog, r *Report)) {
+		old := registry[id]
+		registry[id] = func(p *Prog, r *Report) {
+			old(p, r)
+			extra(p, r)
+		}
+	}
+	for id, rule := range map[string]string{"C06": "C06.i", "C09": "C09.l", "C08": "C08.f"} {
+		id, rule := id, rule
+		wrap(id, func(p *Prog, r *Report) {
+			r.Rule(rule, "the collector's horizon is held back by every registered transaction: the registry's Oldest answers its first element whatever that transaction's fields say (no test of the isolation level or of anything else of the transaction decides which one is answered)")
+			c09OldestAnswersTheFirst(p, r, rule)
+		})
+	}
+	wrap("C01", func(p *Prog, r *Report) {
+		r.Rule("C01.j", "the version points at the content that was stored: once the version's ContentId has been taken from the content record's Id, that Id is not changed again before the records are written (or the version's ContentId is set from it again)")
+		c01VersionPointsAtStoredContent(p, r, "C01.j")
+	})
+}
+
+// c09OldestAnswersTheFirst (seeded C06-A, round 6: ReadCommitted transactions skipped "because they always read the
+// latest version"; between looking a version up and opening its content a reader is protected only by the horizon).
+func c09OldestAnswersTheFirst(p *Prog, r *Report, rule string) {
+	k := "(*internal/repository/transaction.Repo).Oldest"
+	fi := p.Func(k)
+	if fi == nil {
+		r.Undecided(rule, k, "", "the registry's Oldest not found")
+		return
+	}
+	info := fi.Pkg.TypesInfo
+	f := p.FlatInl(fi)
+	bad := ""
+	n := 0
+	for _, gn := range f.Nodes {
+		if !gn.IsCond || gn.Ast == nil {
+			continue
+		}
+		n++
+		ast.Inspect(gn.Ast, func(x ast.Node) bool {
+			if sel, ok := x.(*ast.SelectorExpr); ok {
+				if tv, ok := info.Types[sel.X]; ok && strings.HasSuffix(strings.TrimPrefix(tv.Type.String(), "*"), "internal/model.Transaction") {
+					if s := info.Selections[sel]; s != nil && s.Kind() == types.FieldVal {
+						bad = p.pos(gn.Ast) + ": " + types.ExprString(gn.Ast.(ast.Expr))
+					}
+				}
+			}
+			return true
+		})
+	}
+	r.Check(bad == "", rule, k+"#answers-the-first-registered", p.pos(fi.Decl), fmt.Sprintf("no condition of Oldest (%d, helpers included) looks at the transaction it answers", n),
+		"Oldest chooses by a property of the transaction ("+bad+"): a registered transaction can be passed over, the collector's horizon moves past its snapshot point and removes versions (and contents) it is still reading - a key that has a value throughout is reported missing")
+}
+
+// c01VersionPointsAtStoredContent (seeded C01-A, round 6: a fresh content id per attempt while the version keeps the
+// first one: after a retry in another directory the stored value looks like a tombstone).
+func c01VersionPointsAtStoredContent(p *Prog, r *Report, rule string) {
+	fi := p.Func(kStoreSet)
+	if fi == nil {
+		r.Undecided(rule, kStoreSet, "", "store.Set not found")
+		return
+	}
+	info := fi.Pkg.TypesInfo
+	f := p.FlatInlExcept(fi, kContentStore, kCFStore, kCoreStore)
+	isField := func(e ast.Expr, typeSuffix, field string) bool {
+		sel, ok := ast.Unparen(e).(*ast.SelectorExpr)
+		if !ok || sel.Sel.Name != field {
+			return false
+		}
+		tv, ok := info.Types[sel.X]
+		return ok && strings.HasSuffix(strings.TrimPrefix(tv.Type.String(), "*"), typeSuffix)
+	}
+	var idWrites, syncs []int
+	for _, gn := range f.Nodes {
+		as, ok := gn.Ast.(*ast.AssignStmt)
+		if !ok || gn.Synth != "" {
+			continue
+		}
+		for i, l := range as.Lhs {
+			if isField(l, "internal/model.ContentFile", "Id") {
+				idWrites = append(idWrites, gn.ID)
+			}
+			if isField(l, "internal/model.File", "ContentId") && len(as.Rhs) == len(as.Lhs) {
+				if isField(as.Rhs[i], "internal/model.ContentFile", "Id") {
+					syncs = append(syncs, gn.ID)
+				}
+			}
+		}
+	}
+	writes := f.CallNodes(kCFStore, kCoreStore)
+	cons := kStoreSet + "#content-id-fixed-once"
+	if len(writes) == 0 {
+		r.Undecided(rule, cons, p.pos(fi.Decl), "the record writes of store.Set were not found")
+		return
+	}
+	bad := ""
+	for _, w := range idWrites {
+		reach := f.Reach(f.succsOf(w), func(n *GNode) bool { return setOf(syncs)[n.ID] }, nil)
+		for _, s := range f.succsOf(w) {
+			if !setOf(syncs)[s] {
+				reach[s] = true
+			}
+		}
+		for _, wr := range writes {
+			if reach[wr] {
+				bad = p.pos(f.Nodes[w].Ast)
+			}
+		}
+	}
+	r.Check(bad == "", rule, cons, p.pos(fi.Decl), fmt.Sprintf("the content record's Id is not changed after the version took it (%d later assignments, all followed by a re-assignment of the version's ContentId)", len(idWrites)),
+		"the content record's Id is assigned again at "+bad+" while the version keeps the id it was given before: the version points at a content record that does not exist, which is how a deleted key looks - the write is acknowledged and the key reads as not found")
 }
